@@ -192,6 +192,37 @@ def universe():
     for csrc, caller in agent4:
         for mech in ("defs", "inline", "defs-twice"):
             items.append({"fam": "compose-shapes4", "mech": mech, "callee": csrc, "caller": caller})
+    # functions defined inside inline functions: a helper is local to the function that defines it
+    nested = [
+        "def caller(a: bool, b: bool) -> bool:\n    def twist(x: bool) -> bool:\n        return not x\n    def scale(x: bool, y: bool) -> bool:\n        def twist(x: bool) -> bool:\n            return x\n        return twist(x) and y\n    return twist(a) or scale(a, b)\n",
+        "def caller(n: Qint[2], m: Qint[2]) -> Qint[2]:\n    def twist(v: Qint[2]) -> Qint[2]:\n        return v + 1\n    def scale(v: Qint[2]) -> Qint[2]:\n        def twist(v: Qint[2]) -> Qint[2]:\n            return v + 2\n        return twist(twist(v))\n    r = scale(n)\n    return twist(r) + twist(m)\n",
+        "def caller(a: bool, b: bool) -> bool:\n    def twist(x: bool) -> bool:\n        return not x\n    def scale(x: bool, y: bool) -> bool:\n        def ident(x: bool) -> bool:\n            return x\n        return ident(x) and y\n    return twist(a) or scale(a, b)\n",
+        "def caller(a: bool, b: bool) -> bool:\n    def scale(x: bool, y: bool) -> bool:\n        def twist(x: bool) -> bool:\n            return x\n        return twist(x) and y\n    def twist(x: bool) -> bool:\n        return not x\n    return scale(a, b) ^ twist(b)\n",
+        "def caller(a: Qint[2], b: bool) -> Qint[2]:\n    def g(x: Qint[2]) -> Qint[2]:\n        def h(y: Qint[2]) -> Qint[2]:\n            return y + 1\n        return h(h(x))\n    def k(x: Qint[2], c: bool) -> Qint[2]:\n        def h(y: Qint[2]) -> Qint[2]:\n            return y ^ 3\n        return h(x) if c else x\n    return g(a) + k(a, b)\n",
+    ]
+    for src in nested:
+        items.append({"fam": "compose-nested", "mech": "plain", "callee": "", "caller": src})
+    # two callees of the same name (formals in another order, another body) used one after the
+    # other in one process: the second caller must get the second callee
+    def swapped(csrc):
+        d = ast.parse(csrc).body[0]
+        a = d.args.args
+        if len(a) >= 2 and ast.dump(a[0].annotation) == ast.dump(a[1].annotation):
+            a[0].arg, a[1].arg = a[1].arg, a[0].arg
+            return ast.unparse(d) + "\n"
+        return None
+
+    for cid in ("bb", "iii", "iib", "reassign", "ifupd", "multi"):
+        csrc, formals, rt = CALLEES[cid]
+        sw = swapped(csrc)
+        call = "g(%s, %s)" % (ACTUALS[formals[0]][0], ACTUALS[formals[1]][1])
+        cal = caller_src(call, TY[rt])
+        for first, second in ((csrc, sw), (sw, csrc)):
+            for mech in ("defs", "inline"):
+                items.append({"fam": "compose-sequence", "mech": mech, "callee": second, "caller": cal, "prior": {"callee": first, "caller": cal, "mech": mech}})
+    other = "def g(x: bool, y: bool) -> bool:\n    return x or not y\n"
+    items.append({"fam": "compose-sequence", "mech": "defs", "callee": CALLEES["bb"][0], "caller": caller_src("g(a, b)", "bool"), "prior": {"callee": other, "caller": caller_src("g(a, b)", "bool"), "mech": "defs"}})
+    items.append({"fam": "compose-sequence", "mech": "inline", "callee": other, "caller": caller_src("g(a, b)", "bool"), "prior": {"callee": CALLEES["bb"][0], "caller": caller_src("g(b, a)", "bool"), "mech": "defs"}})
     from .. import corpus2
 
     for it in corpus2.u_compose2(400):
@@ -213,7 +244,7 @@ def make_items(tier, seed):
     if tier == "thorough":
         return u
     rnd_items = [sp for sp in u if sp["fam"] == "compose-rand"]
-    core = rnd_items[:160] + [sp for sp in u if sp["fam"] in ("compose-oraclize", "compose-naming", "compose-two", "compose-shapes4")] + [sp for i, sp in enumerate(u) if sp["fam"] not in ("compose-oraclize", "compose-naming", "compose-two", "compose-rand", "compose-shapes4") and i % 9 == 0]
+    core = rnd_items[:160] + [sp for sp in u if sp["fam"] in ("compose-oraclize", "compose-naming", "compose-two", "compose-shapes4", "compose-nested", "compose-sequence")] + [sp for i, sp in enumerate(u) if sp["fam"] not in ("compose-oraclize", "compose-naming", "compose-two", "compose-rand", "compose-shapes4", "compose-nested", "compose-sequence") and i % 9 == 0]
     rest = [sp for sp in u if sp not in core]
     return slice_quick(core + rest, seed, len(core), 250)
 
@@ -229,6 +260,31 @@ def check_item(spec):
     st = Stats()
     res = {"status": "ok", "findings": [], "nontrivial": False, "cls": ""}
     P = opts()[spec["opt"]]
+    if spec.get("prior"):
+        pr = spec["prior"]
+        try:
+            if pr["mech"] == "defs":
+                qlassf(pr["caller"], defs=[qlassf(pr["callee"], to_compile=False)], to_compile=False, bool_optimizer=P)
+            else:
+                ls = pr["caller"].split("\n")
+                qlassf(ls[0] + "\n" + "\n".join("    " + l for l in pr["callee"].rstrip("\n").split("\n")) + "\n" + "\n".join(ls[1:]), to_compile=False, bool_optimizer=P)
+        except Exception:
+            pass
+    if spec["mech"] == "plain":
+        try:
+            qf = qlassf(spec["caller"], to_compile=False, bool_optimizer=P)
+        except Exception as e:
+            res.update(cls="lib-reject", note="%s: %s" % (type(e).__name__, str(e)[:100]))
+            return res
+        try:
+            ref = refsem.reference(spec["caller"])
+        except refsem.Unsupported as e:
+            res.update(cls="ref-unsupported", note=str(e))
+            return res
+        findings, status, note, nontriv = frontend.decide(qf, ref, st, original_f=getattr(qf, "original_f", None), validate=True)
+        res["findings"] += findings
+        res.update(status=status, note=note, nontrivial=nontriv, cls="judged")
+        return st.into(res)
     try:
         callee = qlassf(spec["callee"], to_compile=False)
     except Exception as e:
